@@ -6,6 +6,7 @@ HARNESS = os.path.join(ROOT, "harness")
 WORK = os.path.join(ROOT, ".work")
 BIN = os.path.join(WORK, "target", "debug", "harness")
 DRIVER = os.path.join(LEAN, ".lake", "build", "bin", "driver")
+REPO = os.path.realpath(os.environ.get("VERIF_REPO", "/repo"))
 ALLOWED_AXIOMS = {"propext", "Classical.choice", "Quot.sound"}
 TRUSTED = [
     "Lean 4.33 kernel; axioms of every obligation printed by `#print axioms` and required to be within {propext, Classical.choice, Quot.sound}",
@@ -113,8 +114,19 @@ def lean_obligations(prop, recheck=False):
     return res
 
 
+def link_repo():
+    """.work/repo -> the repository under test ($VERIF_REPO, default /repo); the harness depends on it by path"""
+    os.makedirs(WORK, exist_ok=True)
+    ln = os.path.join(WORK, "repo")
+    if not (os.path.islink(ln) and os.path.realpath(ln) == REPO):
+        if os.path.islink(ln) or os.path.exists(ln):
+            os.remove(ln)
+        os.symlink(REPO, ln)
+
+
 def harness_build():
     with build_lock():
+        link_repo()
         rc, out = sh(["cargo", "build", "--offline"], cwd=HARNESS, timeout=3000)
     return rc == 0, out
 
@@ -125,7 +137,7 @@ MEMCRSD_TARGET = os.path.join(WORK, "memcrsd-target")
 def memcrsd_build():
     """the real server binary, built from /repo's working tree into a scratch target directory"""
     with build_lock():
-        rc, out = sh(["cargo", "build", "--manifest-path", "/repo/memcrs/Cargo.toml", "--bin", "memcrsd", "--target-dir", MEMCRSD_TARGET, "--offline"], timeout=3000)
+        rc, out = sh(["cargo", "build", "--manifest-path", os.path.join(REPO, "memcrs", "Cargo.toml"), "--bin", "memcrsd", "--target-dir", MEMCRSD_TARGET, "--offline"], timeout=3000)
     return rc == 0, out
 
 
